@@ -63,7 +63,7 @@ def loadable (d : RawDesc) : Bool := !(d.used && (d.off < 0 || d.size < 0))
 
 theorem readDescriptors_ok (buf : Bytes) (doff dsize : Int) (rds : List RawDesc)
     (h0 : 0 ≤ doff) (hsz : (585 * rds.length : Int) ≤ dsize)
-    (hlen : doff.toNat + 585 * rds.length ≤ buf.length)
+    (hlen : rds ≠ [] → doff.toNat + 585 * rds.length ≤ buf.length)
     (htab : slice buf doff.toNat (585 * rds.length) = encTable rds)
     (hv : ∀ d ∈ rds, d.Valid) (hl : ∀ d ∈ rds, loadable d = true)
     (n i : Nat) (acc : List RawDesc) (hni : i + n = rds.length) :
@@ -74,6 +74,7 @@ theorem readDescriptors_ok (buf : Bytes) (doff dsize : Int) (rds : List RawDesc)
     simp [readDescriptors, this]
   | succ n ih =>
     have hi : i < rds.length := by omega
+    have hlen := hlen (by intro h; simp [h] at hi)
     obtain ⟨d, hd⟩ : ∃ d, rds[i]? = some d := ⟨rds[i], by simp [hi]⟩
     have hmem : d ∈ rds := List.mem_of_getElem? hd
     unfold readDescriptors
@@ -104,7 +105,7 @@ structure Loadable (h : Hdr) (rds : List RawDesc) (buf : Bytes) : Prop where
   dsize : (585 * rds.length : Int) ≤ h.dsize
   hlen : 128 ≤ buf.length
   hhdr : slice buf 0 128 = encHdr h
-  tlen : h.doff.toNat + 585 * rds.length ≤ buf.length
+  tlen : rds ≠ [] → h.doff.toNat + 585 * rds.length ≤ buf.length
   htab : slice buf h.doff.toNat (585 * rds.length) = encTable rds
   dv : ∀ d ∈ rds, d.Valid
   dl : ∀ d ∈ rds, loadable d = true
